@@ -1,6 +1,6 @@
 (* Model of arena purge scheduling, with time as an input.  No proofs in this file.
 
-   C sources modelled (src/arena.c, as repaired by 9676b42 and c59c73f):
+   C sources modelled (src/arena.c, as repaired by 9676b42, c59c73f and c78a4f5):
      mi_arena_purge_delay, mi_arena_purge, mi_arena_schedule_purge, mi_arena_purge_range,
      mi_arena_try_purge, mi_arenas_try_purge, _mi_arenas_collect, the MI_MEM_ARENA branch of
      _mi_arena_free (decommit accounting, schedule, release of the in-use bits, trailing
@@ -223,7 +223,8 @@ Definition arena_alloc_at (o : os) (a : arena) (idx blocks : N) (commit : bool) 
       let a3 := set_committed a2 (bm_set (a_committed a2) idx blocks) in
       if any_uncommitted then
         let '(o1, ok) := os_commit oracle o (arena_block_start a idx) (wmul blocks BLOCK) in
-        (o1, a3, ok)
+        (* the commit failed: don't keep the blocks marked as committed (repair c78a4f5) *)
+        (o1, (if ok then a3 else set_committed a3 (bm_clear (a_committed a3) idx blocks)), ok)
       else (o, a3, true)
     else
       let all := bm_all_set (a_committed a2) idx blocks in
